@@ -15,7 +15,8 @@ VERIF = os.path.dirname(os.path.dirname(os.path.abspath(__file__)))
 
 def default_plugins():
     from .plug_json import JsonPlugin
-    return [JsonPlugin()]
+    from .plug_types import TypesPlugin
+    return [TypesPlugin(), JsonPlugin()]
 
 
 def build(repo=None, opts=None, plugins=()):
